@@ -188,7 +188,7 @@ def replay_file(path: str) -> int:
 def selftest() -> int:
     """The comparator must reject a corrupted expectation."""
     res = engine.tlc("AlignCand", "MC_C06", workers=1)
-    case = next(c for c in res.emitted if c["cfg"]["T"] == 2 and c["cfg"]["K"] == 1 and c["cfg"]["driver"] == "model" and c["cfg"]["model"] == "ZNCC")
+    case = next(c for c in res.emitted if c["cfg"]["T"] == 2 and c["cfg"]["K"] == 1 and c["cfg"]["driver"] == "model" and c["cfg"]["model"] == "ZNCC" and c["cfg"]["rs"] == "B")
     good = replay(case)
     bad = json.loads(json.dumps(case))
     bad["cfg"]["j"] = 1 - bad["cfg"]["j"]  # expect the other template while planting the original one
